@@ -15,11 +15,11 @@ ASSUMPTIONS = [
 ]
 
 SDL = """
-type Query { a: Obj b: Obj c: Obj me: Obj slow: Obj nn: Obj! list: [Obj] nnlist: [Obj!] it: I un: U }
+type Query { a: Obj b: Obj c: Obj me: Obj slow: Obj nn: Obj! list: [Obj] nnlist: [Obj!] it: I un: U uns: [U] its: [I] }
 type Mutation { m1: Obj m2: Obj m3: Obj! }
 interface I { id: ID name: String }
 type Obj implements I { id: ID name: String req: String! bestFriend: Obj nnFriend: Obj! friends: [Obj] nnFriends: [Obj!]! }
-type Other { x: Int  o: Obj }
+type Other implements I { id: ID name: String x: Int  o: Obj }
 union U = Obj | Other
 """
 
@@ -39,6 +39,11 @@ QUERIES = [
     "{ nn { nnFriend { nnFriend { req } } } me { id } }",
     "mutation { m1 { name req id } m2 { id } }",
     "mutation { m1 { bestFriend { name req } id } m2 { name req } m3 { id } }",
+    # one response key selected by several field nodes of an abstract type, values of different runtime types
+    "{ uns { ... on Obj { id } } uns { ... on Obj { name } ... on Other { x } } me { id } }",
+    "{ its { id } its { ... on Obj { req } ... on Other { x o { id } } } ...F } fragment F on Query { its { name } }",
+    "{ un { ... on Other { x } } un { ... on Obj { id } ... on Other { o { name } } } it { id } it { ... on Obj { name } } }",
+    "{ its { ... on Other { x } } a { id } its { ... on Obj { bestFriend { id } bestFriend { name } } } }",
 ]
 
 FIELDS_OBJ = ["id", "name", "req", "bestFriend", "nnFriend", "friends", "nnFriends"]
@@ -60,7 +65,11 @@ class World:
             elif kind in ("friends", "nnFriends", "list", "nnlist"):
                 val = [self.obj(), self.obj()]
             elif kind == "un":
-                val = dict(self.obj(), __typename="Obj") if len(path) % 2 else {"__typename": "Other", "x": self.leaf("x"), "o": self.leaf("o")}
+                val = dict(self.obj(), __typename="Obj") if len(path) % 2 else {"__typename": "Other", "id": self.leaf("id"), "name": self.leaf("name"), "x": self.leaf("x"), "o": self.leaf("o")}
+            elif kind in ("uns", "its"):
+                val = [dict(self.obj(), __typename="Obj"),
+                       {"__typename": "Other", "id": self.leaf("id"), "name": self.leaf("name"), "x": self.leaf("x"), "o": self.leaf("o")},
+                       dict(self.obj(), __typename="Obj")]
             elif kind == "it":
                 val = dict(self.obj(), __typename="Obj")
             else:
@@ -93,7 +102,7 @@ class World:
         return d
 
     def root(self):
-        return {k: self.leaf(k) for k in ["a", "b", "c", "me", "slow", "nn", "list", "nnlist", "it", "un", "m1", "m2", "m3"]}
+        return {k: self.leaf(k) for k in ["a", "b", "c", "me", "slow", "nn", "list", "nnlist", "it", "un", "uns", "its", "m1", "m2", "m3"]}
 
 
 def positions(data, path=()):
@@ -246,6 +255,11 @@ def is_type_of_scenarios(ck, quick):
 
 
 def run(tier):
+    # abandoned schedules leave never-awaited coroutines behind; their destructor chatter is not a verdict
+    import sys
+    import warnings
+    warnings.filterwarnings("ignore", category=RuntimeWarning)
+    sys.unraisablehook = lambda *_a: None
     from graphql import build_schema, execute, execute_sync, parse
 
     ck = Check("C03", tier)
